@@ -294,7 +294,9 @@ class _Sym:
         x = wrap(x)
         if isinstance(x.ty, TOpt):
             return x.ty.is_none(x.t)
-        from .types import TNoneT
+        from .types import TNoneT, TObj
+        if x.ty is TObj:  # an arbitrary object may be None
+            return x.t == TObj.lit(None)
         return z3.BoolVal(isinstance(x.ty, TNoneT))
 
     def some(self, x):
